@@ -88,14 +88,26 @@ def build_dir(rng, root: Path):
         pages[rel] = lines
     # coincidences: the value of an ID / RID also appears under ANOTHER property key on another page
     rels = sorted(pages)
+    originals = {key: list(owners[key]) for key in ("ID", "RID", "URL")}  # (owners gained below are not decoyed again)
     for key in ("ID", "RID", "URL"):
-        for val, owner_rel in list(owners[key]):
+        for val, owner_rel in originals[key]:
             if rng.random() < 0.5:
                 other = rng.choice([r for r in rels if r != owner_rel])
                 n += 1
                 z = pg.rand_zid(rng, dt.date(2024, 6, 1) + dt.timedelta(days=n))
                 owners["zid"].append((z, other))
                 pages[other].append(f"- {z} decoy{n} {rng.choice(['author', 'ref', 'see', 'IDX'])}::{val}")
+            elif key in ("ID", "RID") and rng.random() < 0.6:
+                # ... and on a note that has an ID / RID of its OWN under the other key (cross-key value collision):
+                # [#val] must still resolve to the ID owner only, [@val] to the RID owner only
+                other = rng.choice([r for r in rels if r != owner_rel])
+                n += 1
+                z = pg.rand_zid(rng, dt.date(2024, 6, 1) + dt.timedelta(days=n))
+                owners["zid"].append((z, other))
+                okey = "RID" if key == "ID" else "ID"
+                pages[other].append(f"- {z} cross{n} {key}::own{n} {okey}::{val}")
+                owners[key].append((f"own{n}", other))
+                owners[okey].append((val, other))
     for rel, lines in pages.items():
         f = root / rel
         f.parent.mkdir(parents=True, exist_ok=True)
